@@ -169,6 +169,17 @@ def workload(ctx, R, d, kinds, reps, n_create, n_var):
                         for x in c:
                             genos.append(x)
                             ctx.attempt("map-crossed", rname, kind, d, lambda: rep.genotype_to_phenotype(x), src)
+        if kind == "pt":
+            # the decider without a depth limit, fed by very short cyclic genomes: creation must still end
+            for rname, mk in (("ge", lambda: GrammaticalEvolutionRepresentation(ctx.g, dec, gene_length=R.choice([1, 2, 3]))),
+                              ("sge", lambda: StructuredGrammaticalEvolutionRepresentation(ctx.g, dec, gene_length=R.choice([1, 2])))):
+                if rname not in reps:
+                    continue
+                rep = mk()
+                for _ in range(4):
+                    gt = ctx.attempt("create", rname, kind, d, lambda: rep.create_genotype(src), src, project=False)
+                    if gt is not None:
+                        ctx.attempt("map", rname, kind, d, lambda: rep.genotype_to_phenotype(gt), src)
     if "dsge" in reps:
         src = RecordingSource(NativeRandomSource(R.randint(0, 10 ** 6)))
         rep = DynamicStructuredGrammaticalEvolutionRepresentation(ctx.g, d)
